@@ -412,6 +412,27 @@ class Evaluator:
             if isinstance(lit, ast.UnaryOp) and isinstance(lit.op, ast.USub) and isinstance(
                     lit.operand, ast.Constant) and isinstance(lit.operand.value, (int, float)):
                 return c(-lit.operand.value)
+            # NAME = {True: (f, g), False: (h, k)} / (a, b): a small table of names
+            if isinstance(lit, (ast.Dict, ast.Tuple)) and not getattr(self, "_in_table", False) \
+                    and sum(1 for _ in ast.walk(lit)) <= 40 and all(
+                        isinstance(x, (ast.Dict, ast.Tuple, ast.Name, ast.Attribute, ast.Constant,
+                                       ast.Load)) for x in ast.walk(lit)):
+                ctx_fi = next((f_ for f_ in self.repo.functions.values() if f_.module is mi), None)
+                if ctx_fi is not None:
+                    sub_ev = Evaluator(self.repo, ctx_fi)
+                    sub_ev._in_table = True
+                    sub_ev.env.vars.clear()
+                    return sub_ev.expr(lit)
+            # NAME = functools.partial(f, k=const): the partial application itself
+            if isinstance(lit, ast.Call) and ast.unparse(lit.func).endswith("partial") \
+                    and lit.args and isinstance(lit.args[0], (ast.Name, ast.Attribute)) \
+                    and all(isinstance(a_, ast.Constant) for a_ in lit.args[1:]) \
+                    and all(k_.arg and isinstance(k_.value, ast.Constant) for k_ in lit.keywords):
+                tgt = self.repo.resolve_in(mi, dotted(lit.args[0]) or "") if dotted(lit.args[0]) else None
+                if tgt:
+                    return ("call", ("g", "functools.partial"),
+                            (self._global(tgt),) + tuple(c(a_.value) for a_ in lit.args[1:]),
+                            tuple(sorted((k_.arg, c(k_.value.value)) for k_ in lit.keywords)))
             # NAME = operator.attrgetter("field"): the getter itself
             if isinstance(lit, ast.Call) and len(lit.args) == 1 and not lit.keywords \
                     and isinstance(lit.args[0], ast.Constant) and isinstance(lit.args[0].value, str) \
@@ -521,6 +542,17 @@ class Evaluator:
             for k, v in base[1]:
                 if k == idx:
                     return v
+        # a two-entry table indexed by a truth value is a choice:
+        # {True: a, False: b}[bool(x)]  and  (b, a)[bool(x)]  are  a if x else b
+        key = idx[2][0] if idx[0] == "call" and idx[1] in (("n", "bool"), ("g", "bool")) \
+            and len(idx[2]) == 1 else None
+        if key is not None:
+            if base[0] == "dict" and len(base) == 2 and {k for k, _ in base[1]} == {
+                    ("c", True), ("c", False)}:
+                d_ = dict(base[1])
+                return phi_(key, d_[("c", True)], d_[("c", False)])
+            if base[0] == "tuple" and len(base[1]) == 2:
+                return phi_(key, base[1][1], base[1][0])
         return loc
 
     def e_Slice(self, e):
@@ -721,8 +753,12 @@ class Evaluator:
             for arm, pol in ((f[2], True), (f[3], False)):
                 a2, k2 = self._canon_call(arm, args, list(kwargs))
                 t_arm = ("call", arm, a2, tuple(sorted(k2)))
-                self.res.calls.append((t_arm, e, self.cond + pcs(f[1], pol)))
-                outs.append(t_arm)
+                saved_cond = self.cond
+                self.cond = self.cond + pcs(f[1], pol)
+                self.res.calls.append((t_arm, e, self.cond))
+                r_arm = self.inline(self, t_arm, e) if self.inline is not None else None
+                self.cond = saved_cond
+                outs.append(r_arm if r_arm is not None else t_arm)
             return phi_(f[1], outs[0], outs[1])
         args, kwargs = self._canon_call(f, args, kwargs)
         if f[0] == "lambda" and not kwargs:
@@ -1409,6 +1445,15 @@ def make_inliner(repo: Repo, targets: dict[str, FunctionInfo] | None = None,
             callee = repo.functions.get(f[1])
         elif f[0] == "fn":
             callee = repo.functions.get(f[1])
+        recv_term = None
+        if callee is None and keep_depth and f[0] == "a" and f[1][0] == "call" \
+                and f[1][1][0] == "g" and f[1][1][1] in repo.classes:
+            # obj.method(...) on a record built on the spot: the method of that (new) class
+            callee = repo.lookup_method(repo.classes[f[1][1][1]], f[2])
+            if callee is not None and ("property" in callee.decorators()
+                                       or "staticmethod" in callee.decorators()):
+                callee = None
+            skip_self, recv_term = True, f[1]
         if callee is None or isinstance(callee.node, ast.Lambda):
             return None
         if allow is not None and not allow(callee):
@@ -1419,7 +1464,9 @@ def make_inliner(repo: Repo, targets: dict[str, FunctionInfo] | None = None,
         if b is None:
             return None
         if skip_self:
-            b["self"] = n("self")
+            b["self"] = n("self") if recv_term is None else recv_term
+            if recv_term is not None and callee.pos_params():
+                b[callee.pos_params()[0]] = recv_term
         closure = dict(ev.env.vars) if f[0] == "fn" else None
         if keep_depth:
             # reading through a NEW helper costs the rule nothing of its own inlining budget;
